@@ -4,6 +4,12 @@
 //   (a) the right-hand side of Kani `ensures` clauses,
 //   (b) the reference the replay tool runs against the real crate.
 // Nothing in this file is extracted from /repo.
+//
+// Multiplication / division go through `crate::arith` so that a harness crate can
+// choose between the real operations (interpreter unit, replay) and uninterpreted
+// functions shared with the x86 semantics (JIT unit: CBMC does not decide the
+// equivalence of two multiplier/divider circuits, but does decide operand equality).
+use crate::arith;
 
 pub const S_MAX_DEPTH: usize = 8;
 pub const S_STACK_SIZE: u64 = 512;
@@ -194,14 +200,14 @@ pub fn alu64(op: u8, d: u64, s: u64) -> u64 {
     match op {
         0x00 => d.wrapping_add(s),
         0x10 => d.wrapping_sub(s),
-        0x20 => d.wrapping_mul(s),
-        0x30 => if s == 0 { 0 } else { d / s },
+        0x20 => arith::mul64(d, s),
+        0x30 => if s == 0 { 0 } else { arith::div64(d, s) },
         0x40 => d | s,
         0x50 => d & s,
         0x60 => d << (s & 63),
         0x70 => d >> (s & 63),
         0x80 => 0u64.wrapping_sub(d),
-        0x90 => if s == 0 { d } else { d % s },
+        0x90 => if s == 0 { d } else { arith::rem64(d, s) },
         0xa0 => d ^ s,
         0xb0 => s,
         _ /* 0xc0 */ => ((d as i64) >> (s & 63)) as u64,
@@ -216,14 +222,14 @@ pub fn alu32(op: u8, d64: u64, s64: u64) -> u64 {
     let r: u32 = match op {
         0x00 => d.wrapping_add(s),
         0x10 => d.wrapping_sub(s),
-        0x20 => d.wrapping_mul(s),
-        0x30 => if s == 0 { 0 } else { d / s },
+        0x20 => arith::mul32(d, s),
+        0x30 => if s == 0 { 0 } else { arith::div32(d, s) },
         0x40 => d | s,
         0x50 => d & s,
         0x60 => d << (s & 31),
         0x70 => d >> (s & 31),
         0x80 => 0u32.wrapping_sub(d),
-        0x90 => if s == 0 { return d64 } else { d % s },
+        0x90 => if s == 0 { return d64 } else { arith::rem32(d, s) },
         0xa0 => d ^ s,
         0xb0 => s,
         _ /* 0xc0 */ => ((d as i32) >> (s & 31)) as u32,
@@ -448,3 +454,39 @@ pub fn frames_eq(a: &[SFrame; 8], b: &[SFrame; 8]) -> bool {
 pub fn state_eq(a: &SState, b: &SState) -> bool {
     regs_eq(&a.reg, &b.reg) && a.pc == b.pc && a.depth == b.depth && frames_eq(&a.frames, &b.frames)
 }
+
+// ---------------------------------------------------------------- verifier facts
+pub fn is_store_class(opc: u8) -> bool {
+    let c = opc & 7;
+    c == CLS_ST || c == CLS_STX
+}
+
+pub fn is_jump(opc: u8) -> bool {
+    let c = opc & 7;
+    (c == CLS_JMP || c == CLS_JMP32) && opc != OP_CALL && opc != OP_EXIT && opc != OP_TAIL_CALL
+}
+
+
+/// The conjuncts of `wf_insn` (spec/wf.rs, established by verifier::check, C06)
+/// instantiated at the current instruction.
+pub fn wf_facts(i: &SInsn, pc: usize, n: usize) -> bool {
+    if !(n >= 1 && n <= S_MAX_INSNS && pc < n) {
+        return false;
+    }
+    let tgt_off = pc as i64 + 1 + i.off as i64;
+    let tgt_imm = pc as i64 + 1 + i.imm as i64;
+    true
+        // (a tail call is refused by the verifier; the arm is still checked: it must return Err)
+        && supported(i.opc)
+        && i.src <= 10
+        && (i.dst <= 9 || (i.dst == 10 && is_store_class(i.opc)))
+        && (i.opc != OP_LDDW || pc + 2 < n)
+        && (!is_jump(i.opc) || (i.off != -1 && 0 <= tgt_off && tgt_off < n as i64))
+        && (i.opc != OP_CALL || i.src <= 1)
+        && (!(i.opc == OP_CALL && i.src == 1) || (0 <= tgt_imm && tgt_imm < n as i64))
+        && (!(i.opc == OP_LE || i.opc == OP_BE) || i.imm == 16 || i.imm == 32 || i.imm == 64)
+        && (!(i.opc == OP_XADD_W || i.opc == OP_XADD_DW) || i.imm == 0)
+        // execution cannot run past the last instruction: a non-jump is never last
+        && (pc + 1 < n || i.opc == OP_EXIT || i.opc == OP_JA)
+}
+
